@@ -172,3 +172,142 @@ Example C04_awslc_local_unseal_no_panic_nonvacuous :
   lc_local_unseal toy (repeat x00 32) [] (repeat x00 79) [] [] = Err InvalidToken /\
   is_panic (lc_local_unseal toy (repeat x00 32) [] (repeat x00 80) [] []) = false.
 Proof. split; [vm_compute; reflexivity|apply C04_awslc_local_unseal_no_panic]. Qed.
+
+(* ================= theorems added after the first audit ================= *)
+From PV Require Import GuardRules.
+From PV.Gen Require Import Guards.
+
+(* ---- C04_public_unseal_no_panic: the membership hypothesis at each of the six backends; the function takes its
+        Ok, Err InvalidToken, Err CryptoError (toy3 below) and Err ClaimsError branches on concrete inputs ---- *)
+Example C04_public_unseal_no_panic_nonvacuous :
+  is_panic (pg_unseal (v4_pparams toy) toy_edpk sfx s_v4 foot aad) = false /\
+  pg_unseal (v4_pparams toy) toy_edpk sfx s_v4 foot aad = Ok msg /\
+  pg_unseal (v4_pparams toy) toy_edpk sfx (z 63) foot aad = Err InvalidToken /\
+  is_panic (pg_unseal (v1_pparams toy) (z 1) sfx (z 255) foot []) = false /\
+  pg_unseal (v1_pparams toy) (z 1) sfx s_v1 foot aad = Err ClaimsError /\
+  is_panic (pg_unseal (lc_pparams toy) toy_p384 sfx (z 96) foot aad) = false /\
+  pg_unseal (lc_pparams toy) toy_p384 sfx (z 96) foot aad = Err CryptoError.     (* r = s = 0 is out of range *)
+Proof.
+  msplit; first [apply (C04_public_unseal_no_panic toy); cbn; tauto | vm_compute; reflexivity].
+Qed.
+(* the membership hypothesis is used: a parameter record whose check panics makes pg_unseal panic *)
+Definition panicky_pparams : pparams :=
+  {| pp_slen := 1; pp_aad := true; pp_pre := fun _ _ m _ _ => m; pp_check := fun _ _ _ => Panic "check" |}.
+Example C04_public_unseal_no_panic_nonvacuous_hyp_used :
+  is_panic (pg_unseal panicky_pparams [] [] [x00] [] []) = true.
+Proof. reflexivity. Qed.
+(* FINDING (WRONG-REASON, same as C04_local_unseal_no_panic_junk above): pg_unseal has no Panic constructor of
+   its own (its split is total take / drop), so the statement holds of ANY record whose check returns Ok / Err,
+   e.g. one with a nonsensical signature length; nothing about the guards of the Rust source is expressed by it.
+   The content is in the four mirror theorems below (which contain the Panic branches of Rs.v). *)
+Definition junk_pparams : pparams :=
+  {| pp_slen := 4000; pp_aad := false; pp_pre := fun _ _ _ _ _ => []; pp_check := fun _ _ _ => Err CryptoError |}.
+Lemma C04_public_unseal_no_panic_wrong_reason : forall pk enc p f a,
+  is_panic (pg_unseal junk_pparams pk enc p f a) = false.
+Proof. intros. apply PublicProofs.pg_unseal_no_panic. reflexivity. Qed.
+
+(* ---- the three Rust-shaped public mirrors: boundary lengths on both sides of the guard, an accepted token,
+        and the same body under a weakened guard DOES panic ---- *)
+Definition v4_public_unseal_guard (G : nat) (O : oracle) (pk enc payload f a : bytes) : result bytes :=
+  if Nat.ltb (length payload) G then Err InvalidToken else
+  PV.Rs.rs_sub (length payload) 64 "paseto-v4/public.rs unseal: len - 64" (fun mid =>
+  PV.Rs.rs_split_at mid payload "paseto-v4/public.rs unseal: split_at(len - 64)" (fun m tag =>
+  PV.Rs.rs_exact 64 tag "paseto-v4/public.rs unseal: tag.try_into().unwrap()" (fun sig =>
+  if ed_verify O pk (v4_ppre enc m f a) sig then Ok m else Err CryptoError))).
+Example C04_v4_public_guard_64_is_the_model : forall O pk enc p f a,
+  v4_public_unseal_guard 64 O pk enc p f a = v4_public_unseal O pk enc p f a.
+Proof. reflexivity. Qed.
+Example C04_v4_public_guard_63_panics : is_panic (v4_public_unseal_guard 63 toy toy_edpk [] (z 63) [] []) = true.
+Proof. vm_compute. reflexivity. Qed.
+Example C04_v4_public_unseal_no_panic_nonvacuous :
+  v4_public_unseal toy toy_edpk sfx (z 63) foot aad = Err InvalidToken /\
+  v4_public_unseal toy toy_edpk sfx (z 64) foot aad = Ok [] /\
+  v4_public_unseal toy toy_edpk sfx s_v4 foot aad = Ok msg /\
+  is_panic (v4_public_unseal toy toy_edpk sfx (z 63) foot aad) = false /\
+  is_panic (v4_public_unseal toy toy_edpk sfx s_v4 foot aad) = false.
+Proof. msplit; first [apply C04_v4_public_unseal_no_panic | vm_compute; reflexivity]. Qed.
+
+Example C04_v2_public_unseal_no_panic_nonvacuous :
+  v2_public_unseal toy toy_edpk sfx (z 63) foot [] = Err InvalidToken /\
+  v2_public_unseal toy toy_edpk sfx s_v2 foot [] = Ok msg /\
+  v2_public_unseal toy toy_edpk sfx s_v2 foot aad = Err ClaimsError /\
+  is_panic (v2_public_unseal toy toy_edpk sfx [] foot []) = false /\
+  is_panic (v2_public_unseal toy toy_edpk sfx s_v2 foot []) = false.
+Proof. msplit; first [apply C04_v2_public_unseal_no_panic | vm_compute; reflexivity]. Qed.
+
+Definition lc_public_unseal_guard (G : nat) (O : oracle) (pk enc payload f a : bytes) : result bytes :=
+  if Nat.ltb (length payload) G then Err InvalidToken else
+  PV.Rs.rs_sub (length payload) 96 "paseto-v3-aws-lc/public.rs unseal: len - 96" (fun mid =>
+  PV.Rs.rs_split_at mid payload "paseto-v3-aws-lc/public.rs unseal: split_at(len - 96)" (fun m sig =>
+  let r := be_val (take 48 sig) in
+  let s := be_val (drop 48 sig) in
+  if scalar_ok r && scalar_ok s && ecdsa_verify O pk (v3_ppre pk enc m f a) r s then Ok m else Err CryptoError)).
+Example C04_awslc_public_guard_96_is_the_model : forall O pk enc p f a,
+  lc_public_unseal_guard 96 O pk enc p f a = lc_public_unseal O pk enc p f a.
+Proof. reflexivity. Qed.
+Example C04_awslc_public_guard_64_panics : is_panic (lc_public_unseal_guard 64 toy toy_p384 [] (z 70) [] []) = true.
+Proof. vm_compute. reflexivity. Qed.
+Example C04_awslc_public_unseal_no_panic_nonvacuous :
+  lc_public_unseal toy toy_p384 sfx (z 95) foot aad = Err InvalidToken /\
+  lc_public_unseal toy toy_p384 sfx (z 96) foot aad = Err CryptoError /\
+  lc_public_unseal toy toy_p384 sfx s_lc foot aad = Ok msg /\
+  is_panic (lc_public_unseal toy toy_p384 sfx (z 95) foot aad) = false /\
+  is_panic (lc_public_unseal toy toy_p384 sfx s_lc foot aad) = false.
+Proof. msplit; first [apply C04_awslc_public_unseal_no_panic | vm_compute; reflexivity]. Qed.
+
+(* ---- the guard tables: lower bounds only (the table is regenerated from the source) ---- *)
+Example C04_guards_are_the_sources_nonvacuous :
+  Nat.leb 12 (length gen_guards) = true /\ Nat.leb 12 (length model_guards) = true /\
+  In ("paseto-v3-aws-lc/src/core/local.rs", [("guard", 80%N); ("split_sub", 48%N); ("split", 32%N)]) model_guards /\
+  Nat.leb 4 (length (filter (fun r => existsb (fun o => String.eqb (fst o) "split_sub") (snd r)) gen_guards)) = true.
+Proof.
+  rewrite C04_guards_are_the_sources. msplit; try reflexivity. vm_compute. tauto.
+Qed.
+(* the tie is live: a table whose aws-lc guard is lowered is not the model's *)
+Example C04_guards_are_the_sources_nonvacuous_live :
+  map (fun r => if String.eqb (fst r) "paseto-v3-aws-lc/src/core/local.rs"
+                then (fst r, [("guard", 70%N); ("split_sub", 48%N); ("split", 32%N)]) else r) gen_guards <> model_guards.
+Proof. vm_compute. discriminate. Qed.
+
+Example C04_guards_cover_every_split_nonvacuous :
+  Nat.leb 12 (length gen_guards) = true /\
+  (forall r, In r gen_guards -> ops_safe 0 None (snd r) = true) /\
+  (* a weakened row of the table is refused: guard 80 -> 79 in front of split_sub 48 ; split 32 *)
+  ops_safe 0 None [("guard", 79%N); ("split_sub", 48%N); ("split", 32%N)] = false /\
+  ops_safe 0 None [("guard", 63%N); ("split_sub", 64%N); ("to_array", 0%N)] = false /\
+  ops_safe 0 None [("split", 32%N); ("to_array", 0%N)] = false /\
+  ops_safe 0 None [("guard", 64%N); ("unknown_op", 1%N)] = false /\
+  (* every row with a panicking op is refused once its guards are deleted *)
+  forallb (fun r => negb (existsb (fun o => String.eqb (fst o) "split_sub") (snd r)) ||
+                    negb (ops_safe 0 None (filter (fun o => negb (String.eqb (fst o) "guard")) (snd r)))) gen_guards = true.
+Proof.
+  msplit; try reflexivity.
+  apply (proj1 (forallb_forall _ _)). exact C04_guards_cover_every_split.
+Qed.
+(* FINDING (WEAKER, minor): the checker does not compare the size of the array a `try_into().unwrap()` converts to
+   with the size of the tail that was split off (the generated constant of "to_array" is 0, and ops_safe only
+   asks that SOME tail was just split).  A row splitting off 63 bytes and converting them to [u8; 64] passes.
+   In the MODEL the conversion is rs_exact 64 and the no-panic theorems do check it; but the tie
+   gen_guards = model_guards says nothing about the array type of the Rust source. *)
+Lemma C04_guards_checker_ignores_array_size :
+  ops_safe 0 None [("guard", 64%N); ("split_sub", 63%N); ("to_array", 0%N)] = true /\
+  ops_safe 0 None [("guard", 64%N); ("split_sub", 1%N); ("to_array", 4000%N)] = true.
+Proof. split; reflexivity. Qed.
+
+(* NOTE on C04_guards_are_the_sources: only the four rows of the Rust-shaped mirrors are written with constants the
+   mirror functions are stated with (lc_local_G, ed_public_S, ... and the *_shape lemmas).  The other eight rows of
+   [model_guards] are numerals typed into GuardRules.v; nothing connects them to the parameter records the model
+   of those backends actually uses.  They do agree with them today (this lemma is that missing tie, for the tag /
+   signature lengths), and those eight rows have no panicking operation, so no-panic does not depend on them. *)
+Lemma C04_model_guards_literal_rows_agree_with_params : forall O,
+  lp_tlen (v1_params O) = 48 /\ lp_tlen (v3_params O) = 48 /\ lp_tlen (v4_params O) = 32 /\ lp_tlen (na_params O) = 32 /\
+  pp_slen (v1_pparams O) = 256 /\ pp_slen (v3_pparams O) = 96 /\ pp_slen (na_pparams O) = 64 /\
+  forallb (fun r => negb (existsb (fun o => String.eqb (fst o) "split_sub" || String.eqb (fst o) "split" || String.eqb (fst o) "to_array") (snd r))
+                    || existsb (String.eqb (fst r)) ["paseto-v2/src/core/public.rs"; "paseto-v4/src/core/public.rs";
+                                                      "paseto-v3-aws-lc/src/core/local.rs"; "paseto-v3-aws-lc/src/core/public.rs"])
+          model_guards = true.
+Proof. intros O. repeat split. Qed.
+(* the checker accepts a row with no operations at all: a `fn unseal` whose splits the extractor does not recognise
+   would pass silently (trust in tools/extract_facts.py, not a defect of the proof) *)
+Example C04_guards_checker_accepts_empty_row : ops_safe 0 None [] = true.
+Proof. reflexivity. Qed.
